@@ -7,6 +7,10 @@
 (*   Enum  : the same strings (S->C), the adversarial argument vectors of the built-in    *)
 (*           grid, the literal / statement families (long numeric literals, braced         *)
 (*           unicode escapes, statement head x misplaced operand, misplaced jumps).        *)
+(*           nesting shape x depth (front-end work bounded), flat chains that nest the     *)
+(*           syntax tree; hostile argument classes (mutating callbacks, hooks, cyclic /    *)
+(*           deep values, texts of 5000 characters), receivers, operator forms, the use    *)
+(*           of every object a call returns.                                               *)
 (*   Judge : token streams / error positions of the real lexer, outcome typing of every   *)
 (*           evaluation (front-end soup, corpus prefixes, mutations, built-in grid).      *)
 EXTENDS LexerFSM, JsGrammar, JsVal, Json, IOUtils
@@ -102,11 +106,11 @@ ArgSet == PlainSet \cup HostileSet
 \* benign leads, every plain class in the third position after three lead pairs (number, number / object, name / buffer, offset);
 \* every hostile class alone, first (before a number), second (after a number, a pattern that matches, an array, a JSON text) and third.
 \* Thorough: the full product of the plain classes for lengths <= 2, (leads x leads x every class) for length 3, every hostile class
-\* in either position next to every core class and every hostile lead.
+\* in either position next to every hostile lead and six core values (undefined, Infinity, '7' - a radix -, {}, [], a function).
 Lead == {"zero", "sx", "obj"}
 LeadPairs == {<<"zero", "zero">>, <<"obj", "sx">>, <<"abuf", "zero">>}
 HostileLeads == {"zero", "regex", "arr12", "sjson"}
-HostileMates == IF Quick THEN HostileLeads ELSE HostileLeads \cup CoreSet
+HostileMates == IF Quick THEN HostileLeads ELSE HostileLeads \cup {"undefined", "inf", "s7", "obj", "arr", "fn"}
 \* (a callback does not stand third: no built-in takes one there; hooks, structures and texts do: thisArg, indent, inserted element)
 ThirdHostile == HostileSet \ MutClasses
 Pairs == (IF Quick THEN {<<xa, ya>> : xa \in CoreSet, ya \in CoreSet} \cup {<<xa, ya>> : xa \in Lead, ya \in ExtraSet}
@@ -201,13 +205,19 @@ HugeVals == {"p31", "p53", "e21"}
 Huge == {"p31"} \cup {rt \o "_p31" : rt \in SeqSet(Routes)}
 Allocating == {"repeat", "Array", "ArrayBuffer", "Int8Array", "Uint8Array", "Uint8ClampedArray", "Int16Array", "Uint16Array",
                "Int32Array", "Uint32Array", "Float32Array", "Float64Array", "padStart", "padEnd", "fill", "from", "constructor", "op:setlen"}
-CallSupported(fname, args) == ~(fname \in Allocating /\ \E ai \in 1..Len(args) : args[ai] \in Huge)
+\* A text of HostileSize nested brackets given to a function that compiles its argument as source is source nested deeper than the
+\* documented limit: outside the property (the same text as a JSON text or as a pattern is data, and inside it).
+Compiling == {"eval", "Function"}
+NestedTexts == {"t_brackets", "t_braces", "t_parens"}
+CallSupported(fname, args) == /\ ~(fname \in Allocating /\ \E ai \in 1..Len(args) : args[ai] \in Huge)
+                              /\ ~(fname \in Compiling /\ \E ai \in 1..Len(args) : args[ai] \in NestedTexts)
 GridItem(kd, nm, sq, gs, nn) == [kind |-> kd, pf |-> nm, cls |-> sq, to |-> gs, ar |-> nn]
 GridItems == {GridItem("vec", "", av, VecGroups(av), Len(av)) : av \in AllVectors}
              \cup {GridItem("recv", rn, <<>>, RecvGroups(rn), 0) : rn \in AllReceivers}
              \cup {GridItem("op", op.n, <<op.t>>, <<op.g>>, op.ar) : op \in Operators}
              \cup {GridItem("use", "", <<UseOps[ui]>>, <<>>, ui) : ui \in 1..Len(UseOps)}
              \cup {GridItem("huge", hc, <<>>, <<>>, 0) : hc \in Huge} \cup {GridItem("allocating", fc, <<>>, <<>>, 0) : fc \in Allocating}
+             \cup {GridItem("compiling", fc, <<>>, <<>>, 0) : fc \in Compiling} \cup {GridItem("nested", tc, <<>>, <<>>, 0) : tc \in NestedTexts}
              \cup {GridItem("param", "HostileSize", <<>>, <<>>, HostileSize), GridItem("param", "DeepLevels", <<>>, <<>>, DeepLevels),
                    GridItem("param", "MutBudget", <<>>, <<>>, MutBudget)}
 GridInit == ph = "start" /\ pf = "" /\ inp = <<>> /\ rec_i = 0
@@ -240,7 +250,7 @@ GridLaw == ph = "start" =>
              /\ Cardinality(PlainSet) = Len(CoreClasses) + Len(MirrorClasses) + Len(KindClasses) + Len(SmallClasses) + Cardinality(Routed)
              /\ PlainSet \cap HostileSet = {}
              /\ Cardinality(HostileSet) = Len(MutKinds) + 2 * Cardinality(HookKinds) + Cardinality(StructClasses) + Cardinality(TextClasses)
-             /\ HookKinds \subseteq SeqSet(MutKinds) /\ RadixTexts \subseteq TextClasses /\ HostileLeads \subseteq PlainSet /\ TinySet \subseteq ArgSet
+             /\ HookKinds \subseteq SeqSet(MutKinds) /\ RadixTexts \subseteq TextClasses /\ NestedTexts \subseteq TextClasses /\ HostileLeads \subseteq PlainSet /\ TinySet \subseteq ArgSet
              /\ \A hc \in HostileSet : \A ld \in HostileLeads \ {"zero"} : <<ld, hc>> \in ArgVectors
              /\ \A mc \in MutClasses : \A rn \in HostileReceivers : \E av \in ArgVectors : av = <<mc>> /\ SeqHas(VecGroups(av), "hostile")
              /\ \A av \in AllVectors : VecGroups(av) # <<>> /\ VecGroups(av) # <<"use">>
@@ -580,6 +590,9 @@ HostSites == {
   \* StringToNumber of a radix-prefixed text ("0x" + hundreds of digits): float(int(text, 16)) beyond the doubles
   [dev |-> "Dev_RadixStringOverflow", type |-> "OverflowError", where |-> {"values.py:_string_to_number"},
    kinds |-> {"call"}, fnames |-> AnyArg, args |-> RadixTexts],
+  \* an element read / store converts a property name made of digits with int() (vm.py _array_index, since 0c2d1c1): the host's limit of 4300 digits
+  [dev |-> "Dev_ArrayIndexDigits", type |-> "ValueError", where |-> {"vm.py:_array_index"},
+   kinds |-> {"call"}, fnames |-> {"op:get", "op:set", "op:set1"}, args |-> {"t_dec"}],
   \* `key in array` converts a key made of digits with int(): the host's limit of 4300 digits
   [dev |-> "Dev_InOperatorDigits", type |-> "ValueError", where |-> {"vm.py:_execute_opcode"},
    kinds |-> {"call"}, fnames |-> {"op:in"}, args |-> {"t_dec"}],
@@ -663,7 +676,7 @@ JudgeToks(r) ==
 \* a call of the grid (a method, a global function, an operator form); lex = the outcome of the use of its result (o = "none" when the
 \* call did not return an object)
 JudgeCall(r) ==
-  IF ~CallSupported(r.fname, r.args) THEN [v |-> "unsupported", dev |-> "", why |-> "allocating call with a huge argument"]
+  IF ~CallSupported(r.fname, r.args) THEN [v |-> "unsupported", dev |-> "", why |-> "allocating call with a huge argument / compiling call with a nested text"]
   ELSE LET ty == Typing(r, <<0>>) IN
        IF ty.v # "pass" THEN ty
        ELSE IF r.lex.o = "none" \/ InJSErrorFamily(r.lex) THEN Pass
